@@ -50,7 +50,7 @@ def build_scene(
 ):
     """bounds: str (all faces) or dict face->type.  Returns dict(objects, arrays, params, config, info, volume)."""
     grid = make_grid(shape, widths)
-    if isinstance(bounds, str):
+    if bounds is None or isinstance(bounds, str):
         btypes = {f: bounds for f in FACES}
     else:
         btypes = {f: bounds.get(f, "periodic") for f in FACES}
@@ -69,12 +69,16 @@ def build_scene(
         time=t_total, grid=grid, backend="cpu", dtype=dtype, courant_factor=courant_factor,
         use_complex_fields=use_complex, symmetry=tuple(symmetry), gradient_config=None,
     )
-    bcfg = fdtdx.BoundaryConfig.from_uniform_bound(thickness=thickness, override_types=btypes, bloch_vector=tuple(bloch_vector))
-    if isinstance(thickness, dict):
-        bcfg = fdtdx.BoundaryConfig.from_uniform_bound(thickness=1, override_types=btypes, bloch_vector=tuple(bloch_vector))
-        for f, t in thickness.items():
-            bcfg = bcfg.aset("thickness_grid_" + f.replace("_", ""), t)
-    bdict, bcons = fdtdx.boundary_objects_from_config(bcfg, volume)
+    if bounds is None or bounds == "none":
+        bdict, bcons = {}, []  # no boundary objects at all: zero-field halo on every face
+    else:
+        if isinstance(thickness, dict):
+            bcfg = fdtdx.BoundaryConfig.from_uniform_bound(thickness=1, override_types=btypes, bloch_vector=tuple(bloch_vector))
+            for f, t in thickness.items():
+                bcfg = bcfg.aset("thickness_grid_" + f.replace("_", ""), t)
+        else:
+            bcfg = fdtdx.BoundaryConfig.from_uniform_bound(thickness=thickness, override_types=btypes, bloch_vector=tuple(bloch_vector))
+        bdict, bcons = fdtdx.boundary_objects_from_config(bcfg, volume)
     objs = [volume] + list(bdict.values())
     cons = list(bcons)
     for item in extra_objects:
@@ -184,3 +188,27 @@ def material_box(name, lo, shape, material, order=None):
         kw["placement_order"] = order
     o = fdtdx.UniformMaterialObject(name=name, partial_grid_shape=tuple(int(v) for v in shape), material=material, **kw)
     return o, at(o, lo)
+
+
+class exact_widths:
+    """Harness-side stub (DESIGN 2.5): while active, ``RectilinearGrid.cell_widths(axis)`` returns the given arrays
+    (traced arguments carrying the grid's own widths as exact rationals) instead of the float arrays stored in the
+    grid, so that metric factors ``reference_spacing / widths`` are exact and identities hold with ``==`` over Q."""
+
+    def __init__(self, widths3):
+        self.w = widths3
+
+    def __enter__(self):
+        self.orig = RectilinearGrid.cell_widths
+        w = self.w
+        RectilinearGrid.cell_widths = lambda self_, axis: w[axis]
+        return self
+
+    def __exit__(self, *a):
+        RectilinearGrid.cell_widths = self.orig
+
+
+def grid_widths(config):
+    """the resolved grid's per-axis cell widths as numpy float64 arrays."""
+    g = config.resolved_grid
+    return [np.asarray(g.cell_widths(a), dtype=np.float64) for a in range(3)]
